@@ -26,7 +26,7 @@ struct op { int op; long arg; int content; };
 struct c32_item {
 	int type;
 	long keylen; int kclass; long limit; unsigned seed;          /* KEY */
-	int nops; struct op ops[3]; int where;                        /* SEND */
+	int nops; struct op ops[4]; int where;                        /* SEND */
 };
 static struct c32_item *items; static size_t nitems, capitems;
 
@@ -70,23 +70,32 @@ static void build_items(int deep)
 	static const long big_q[] = { 1000, 1023, 1024, 2000, 4096 };
 	static const long big_t[] = { 1023, 1024, 1025, 2000, 4096, 8192, 16384, 65536, 1 << 20 };
 	static const long lens_q[] = { 0, 1, 125, 126, 127, 65535, 65536, 65537, 1 << 20 };
+	static const long lens_t[] = { 0, 1, 124, 125, 126, 127, 128, 65534, 65535, 65536, 65537, 1 << 20 };
+	const long *lens = deep ? lens_t : lens_q; size_t nlens = deep ? sizeof lens_t / sizeof lens_t[0] : sizeof lens_q / sizeof lens_q[0];
 	static const unsigned codes[] = { 1000, 0, 1, 255, 256, 1002, 1009, 3000, 4999, 0x7fff, 0x8000, 0xffff };
 	struct op data[64]; int ndata = 0, a, b, w, cl;
 	size_t i;
 	/* ---- KEY items ---- */
 	memset(&it, 0, sizeof it); it.type = IT_KEY;
-	for (l = 0; l <= (deep ? 1100 : 130); l++)
+	for (l = 0; l <= (deep ? 4200 : 130); l++)
 		for (c = 0; c < NKCLASS; c++) { it.keylen = l; it.kclass = c; it.limit = 0; it.seed = (unsigned)l; add_item(&it); }
+	/* SHA-1 block boundaries: key+GUID (36 bytes) ends within -12..+4 bytes of a multiple of 64, i.e.
+	 * key length 16..32 mod 64 (padding fits / spills into an extra block, input is a whole number of
+	 * blocks), for every block count up to 1100 bytes (quick) / 16500 bytes (deep) */
+	for (l = deep ? 4201 : 131; l <= (deep ? 16500 : 1100); l++) {
+		if (l % 64 < 16 || l % 64 > 32) continue;
+		for (c = 0; c < (deep ? 3 : 2); c++) { it.keylen = l; it.kclass = c == 1 ? 2 : c == 2 ? 4 : 0; it.limit = 0; it.seed = (unsigned)l; add_item(&it); }
+	}
 	if (!deep) for (l = 980; l <= 995; l++)
 		for (c = 0; c < NKCLASS; c++) { it.keylen = l; it.kclass = c; it.seed = 7; add_item(&it); }
 	for (i = 0; i < (deep ? sizeof big_t / sizeof big_t[0] : sizeof big_q / sizeof big_q[0]); i++)
 		for (c = 0; c < NKCLASS; c++) { it.keylen = deep ? big_t[i] : big_q[i]; it.kclass = c; it.seed = 3; add_item(&it); }
 	/* realistic 24-character keys: many different SHA-1 inputs / digests for the base64 encoder */
-	for (s = 0; s < (deep ? 6000u : 400u); s++) { it.keylen = 24; it.kclass = 0; it.seed = 1000 + s; it.limit = 0; add_item(&it); }
+	for (s = 0; s < (deep ? 20000u : 400u); s++) { it.keylen = 24; it.kclass = 0; it.seed = 1000 + s; it.limit = 0; add_item(&it); }
 	/* around a configured header-size limit: the largest accepted keys and the first refused ones */
 	{
-		static const long limits_q[] = { 1200 }, limits_t[] = { 300, 1200, 8192 };
-		size_t nl = deep ? 3 : 1;
+		static const long limits_q[] = { 1200 }, limits_t[] = { 300, 1200, 8192, 16384 };
+		size_t nl = deep ? 4 : 1;
 		for (i = 0; i < nl; i++) {
 			long lim = deep ? limits_t[i] : limits_q[i];
 			for (l = lim - 160; l <= lim + 8; l++) {
@@ -96,11 +105,11 @@ static void build_items(int deep)
 		}
 	}
 	/* ---- SEND items ---- */
-	for (i = 0; i < sizeof lens_q / sizeof lens_q[0]; i++) {
+	for (i = 0; i < nlens; i++) {
 		int nc_text = deep ? 2 : 1, nc_bin = deep ? 3 : 1;
-		if (lens_q[i] > 70000) nc_text = nc_bin = 1;    /* the 1 MiB payload in one content class only */
-		for (c = 0; c < nc_text; c++) { data[ndata].op = OP_TEXT; data[ndata].arg = lens_q[i]; data[ndata++].content = c; }
-		for (c = 0; c < nc_bin; c++) { data[ndata].op = OP_BIN; data[ndata].arg = lens_q[i]; data[ndata++].content = c; }
+		if (lens[i] > 70000) nc_text = nc_bin = 1;    /* the 1 MiB payload in one content class only */
+		for (c = 0; c < nc_text; c++) { data[ndata].op = OP_TEXT; data[ndata].arg = lens[i]; data[ndata++].content = c; }
+		for (c = 0; c < nc_bin; c++) { data[ndata].op = OP_BIN; data[ndata].arg = lens[i]; data[ndata++].content = c; }
 	}
 	memset(&it, 0, sizeof it); it.type = IT_SEND;
 	for (w = 0; w < 3; w++) {
@@ -131,6 +140,22 @@ static void build_items(int deep)
 			}
 		}
 	}
+	/* deep: three data frames in a row (frame boundaries between all length forms), from the request handler
+	 * and from a message callback */
+	if (deep) {
+		static const long l3[] = { 0, 125, 126, 65535, 65536 };
+		struct op d3[10]; int n3 = 0, x, y, z;
+		for (i = 0; i < sizeof l3 / sizeof l3[0]; i++) {
+			d3[n3].op = OP_TEXT; d3[n3].arg = l3[i]; d3[n3++].content = 0;
+			d3[n3].op = OP_BIN; d3[n3].arg = l3[i]; d3[n3++].content = 0;
+		}
+		for (w = 0; w < 3; w += 2)
+			for (x = 0; x < n3; x++) for (y = 0; y < n3; y++) for (z = 0; z < n3; z++) {
+				it.where = w; it.nops = 4; it.ops[0] = d3[x]; it.ops[1] = d3[y]; it.ops[2] = d3[z];
+				it.ops[3].op = OP_CLOSE; it.ops[3].arg = 1001; it.ops[3].content = 0;
+				add_item(&it);
+			}
+	}
 }
 
 static void fill_payload(unsigned char *p, long n, int op, int content)
@@ -146,7 +171,7 @@ static void fill_payload(unsigned char *p, long n, int op, int content)
 
 /* ------------------------------------------------------------------ */
 static const struct c32_item *cur_it;
-static unsigned char *pay[3]; static int sends_done;
+static unsigned char *pay[4]; static int sends_done;
 
 static void do_sends(struct ws_sess *s)
 {
@@ -248,7 +273,7 @@ static void item(uint64_t idx)
 	const struct c32_item *it = &items[idx];
 	struct ws_sess s; int ok101, i;
 	cur_it = it; sends_done = 0;
-	pay[0] = pay[1] = pay[2] = NULL;
+	pay[0] = pay[1] = pay[2] = pay[3] = NULL;
 	if (it->type == IT_KEY) {
 		char *k = malloc((size_t)it->keylen + 1);
 		if (!k) abort();
@@ -290,7 +315,7 @@ static void item(uint64_t idx)
 	mc_nontrivial(mc_hash_u64(0x5e0d, idx));
 done:
 	ws_sess_close(&s);
-	for (i = 0; i < 3; i++) free(pay[i]);
+	for (i = 0; i < 4; i++) free(pay[i]);
 }
 
 static void init(void)
